@@ -420,6 +420,41 @@ Theorem rp_expiry_skew : forall asrc isrc s now_op now_rp, asrc <> SrcNone ->
   v_at_exp (view_rp asrc isrc s now_op now_rp) = Some (s_at_exp s + (now_rp - now_op))%Z.
 Proof. intros asrc isrc s now_op now_rp H. destruct asrc; try congruence; cbn; unfold expires_in; f_equal; lia. Qed.
 
+(* ------------------------------------------------------------------ refresh *)
+Lemma refresh_chain_keeps : forall l s,
+  s_client (refresh_chain s l) = s_client s /\ s_sub (refresh_chain s l) = s_sub s
+  /\ s_scope (refresh_chain s l) = s_scope s /\ s_nonce (refresh_chain s l) = s_nonce s.
+Proof.
+  unfold refresh_chain. induction l as [|[[now a] i] l IH]; intros s; cbn [fold_left]; [repeat split|].
+  destruct (IH (refresh_session s (now, a, i))) as (H1 & H2 & H3 & H4). cbn in *. repeat split; assumption.
+Qed.
+
+(* after ANY number of refreshes: the views of the refreshed access token / ID Token are projections of the refreshed
+   record, so they agree with each other; client, subject, scope and nonce are those of the original grant; the
+   expiry every view states is the provider's clock at the LAST refresh plus the access-token lifetime *)
+Theorem views_after_refresh : forall s l now at_life idt_life at_jwt,
+  let s' := refresh_chain s (l ++ [(now, at_life, idt_life)]) in
+  all_agree (all_views SrcToken SrcToken at_jwt s' now now) = true
+  /\ (forall v, In v (all_views SrcToken SrcToken at_jwt s' now now) -> projects s' v)
+  /\ v_client (view_rp SrcToken SrcToken s' now now) = Some (s_client s)
+  /\ v_sub (view_rp SrcToken SrcToken s' now now) = Some (s_sub s)
+  /\ v_scope (view_rp SrcToken SrcToken s' now now) = Some (s_scope s)
+  /\ v_nonce (view_rp SrcToken SrcToken s' now now) = s_nonce s
+  /\ v_at_exp (view_token_response s' now) = Some (now + at_life)%Z
+  /\ v_at_exp (view_rp SrcToken SrcToken s' now now) = Some (now + at_life)%Z
+  /\ v_at_exp (view_introspection s') = Some (now + at_life)%Z
+  /\ v_at_exp (view_jwt_access_token s') = Some (now + at_life)%Z
+  /\ v_at_exp (view_session SrcToken SrcToken s') = Some (now + at_life)%Z.
+Proof.
+  intros s l now at_life idt_life at_jwt s'.
+  assert (E : s' = refresh_session (refresh_chain s l) (now, at_life, idt_life)).
+  { unfold s', refresh_chain. rewrite fold_left_app. reflexivity. }
+  destruct (refresh_chain_keeps l s) as (K1 & K2 & K3 & K4).
+  split; [apply views_agree; left; discriminate|]. split; [intros v; apply views_project; left; discriminate|].
+  rewrite E. cbn. unfold expires_in. cbn. rewrite K1, K2, K3, K4.
+  repeat split; f_equal; lia.
+Qed.
+
 (* the composed model: the record is created once, at the authorization endpoint, from the request and from
    three functions of the environment (subject identifier, scope filter, lifetimes) *)
 Section Composed.
